@@ -204,9 +204,71 @@ func (e *Engine) loadContracts(verifDir string, extra string) error {
 			return err
 		}
 	}
+	e.resolveSigKeys(sp)
 	sp.finishSweep()
 	e.spec = sp
 	return nil
+}
+
+// resolveSigKeys: a closure may be addressed by its parameter types instead of its ordinal -
+// "parent$(T1,T2)" is the only function literal directly inside parent with that parameter list. An edit
+// that adds or removes another literal in the parent renumbers the ordinals but leaves this key valid.
+// No candidate or several: the key stays unresolved and is reported like any contract whose function is gone.
+func (e *Engine) resolveSigKeys(sp *Spec) {
+	var keys []string
+	for k := range sp.Contracts {
+		if strings.Contains(k, "$(") && (strings.HasSuffix(k, ")") || strings.Contains(k[strings.LastIndex(k, "$("):], ")#")) {
+			keys = append(keys, k)
+		}
+	}
+	sort.Strings(keys)
+	for _, k := range keys {
+		c := sp.Contracts[k]
+		i := strings.LastIndex(k, "$(")
+		// optional "#n": the n-th literal (source order) among those with this parameter list
+		nth, kk := 0, k
+		if j := strings.LastIndex(k, ")#"); j > i {
+			fmt.Sscanf(k[j+2:], "%d", &nth)
+			kk = k[:j+1]
+		}
+		parent, sig := kk[:i], strings.ReplaceAll(kk[i+2:len(kk)-1], " ", "")
+		var cands []string
+		for fk, f := range e.fns {
+			if f.Parent() == nil || f.Pkg == nil || f.Parent().Pkg == nil {
+				continue
+			}
+			if f.Parent().Pkg.Pkg.Path()+"::"+f.Parent().RelString(f.Parent().Pkg.Pkg) != parent {
+				continue
+			}
+			var ts []string
+			for _, p := range f.Params {
+				ts = append(ts, types.TypeString(p.Type(), types.RelativeTo(f.Pkg.Pkg)))
+			}
+			if strings.ReplaceAll(strings.Join(ts, ","), " ", "") == sig {
+				cands = append(cands, fk)
+			}
+		}
+		sort.Slice(cands, func(a, b int) bool { return e.fns[cands[a]].Pos() < e.fns[cands[b]].Pos() })
+		if nth == 0 && len(cands) == 1 {
+			nth = 1
+		}
+		if nth < 1 || nth > len(cands) || (nth == 0 && len(cands) != 1) {
+			continue
+		}
+		real := cands[nth-1]
+		if prev := sp.Contracts[real]; prev != nil {
+			if !strings.HasSuffix(prev.File, "sweep_verif.go") {
+				continue // an ordinal-keyed hand-written contract exists as well: leave both, the duplicate is reported as missing
+			}
+			if sp.sweepDup == nil {
+				sp.sweepDup = map[string]*Contract{}
+			}
+			sp.sweepDup[real] = c
+		}
+		delete(sp.Contracts, k)
+		c.Key = real[strings.Index(real, "::")+2:]
+		sp.Contracts[real] = c
+	}
 }
 
 // srcLine returns the trimmed source line at a position (used to name run-time-error obligations
